@@ -58,3 +58,25 @@ Proof.
   - intros b Hb. cbn in Hb. destruct Hb as [<-|[<-|[<-|[<-|[]]]]];
       destruct (cl 0), (cl 1), (cl 2), (cl 3), (cr 0), (cr 1), (cr 2), (cr 3); vm_compute; split; reflexivity.
 Qed.
+
+(* an extension byte is determined by its eight has_ext answers; from_single_dirs of the two single_dirs is the identity *)
+Lemma exts_ext_eq e e' : e < 256 -> e' < 256 ->
+  (forall d b, In b bases4 -> e_has_ext e d b = e_has_ext e' d b) -> e = e'.
+Proof.
+  intros He He' H.
+  assert (E : forallb (fun e => forallb (fun e' =>
+     negb (forallb (fun d => forallb (fun b => Bool.eqb (e_has_ext e d b) (e_has_ext e' d b)) bases4) [false; true])
+     || (e =? e')) ExtsProofs.all_exts) ExtsProofs.all_exts = true) by (vm_compute; reflexivity).
+  rewrite forallb_forall in E. specialize (E e (ExtsProofs.in_all_exts e He)).
+  rewrite forallb_forall in E. specialize (E e' (ExtsProofs.in_all_exts e' He')).
+  apply orb_true_iff in E. destruct E as [E|E]; [|now apply N.eqb_eq].
+  exfalso. apply negb_true_iff in E. rewrite <- not_true_iff_false in E. apply E.
+  apply forallb_forall. intros d _. apply forallb_forall. intros b Hb. rewrite (H d b Hb). apply eqb_reflx.
+Qed.
+Lemma single_dirs_id e : e < 256 -> e_from_single_dirs (e_single_dir e false) (e_single_dir e true) = e.
+Proof.
+  intro He.
+  assert (E : forallb (fun e => e_from_single_dirs (e_single_dir e false) (e_single_dir e true) =? e)
+                      ExtsProofs.all_exts = true) by (vm_compute; reflexivity).
+  rewrite forallb_forall in E. apply N.eqb_eq. apply E. now apply ExtsProofs.in_all_exts.
+Qed.
